@@ -1,7 +1,7 @@
 -------------------------------- MODULE HoistS --------------------------------
 (* C06: placement of hoisted literals.
 
-   The scope skeleton of a fixed program (harness/hoistgen.py TEMPLATE) with 21 places where one and
+   The scope skeleton of a fixed program (harness/hoistgen.py TEMPLATE) with 22 places where one and
    the same literal may occur.  A case is a non-empty subset of those places (at most MaxUses) and a
    literal kind.  Scopes: 1 module . 2 class K . 3 method K.m . 4 function outer . 5 function inner
    (in outer) . 6 comprehension (in inner) . 7 lambda (in inner) . 8 class L (in outer) . 9 class S . 10 function docfn.
@@ -20,7 +20,7 @@ Par  == <<0, 1, 2, 1, 4, 5, 5, 4, 1, 1>>
 Kind == <<"m", "c", "f", "f", "f", "g", "l", "c", "c", "f">>
 
 \* place -> <<scope it is written in, position kind>>
-Places == 0..20
+Places == 0..21
 PlaceTable == <<
   <<2, "body">>,        \* P0  K.attr = LIT                      (class body)
   <<3, "default">>,     \* P1  def m(self, a=LIT)                (evaluated in class K)
@@ -42,7 +42,8 @@ PlaceTable == <<
   <<10, "docstring">>,  \* P17 first statement of function docfn: docstring position
   <<5, "default">>,     \* P18 def inner(..., *, kw=LIT): keyword-only default (evaluated in outer)
   <<7, "default">>,     \* P19 (lambda d=LIT: d)() in inner: lambda default (evaluated in inner)
-  <<6, "first_iter">> >> \* P20 [_ for _ in [LIT]] in inner: the first iterable is evaluated in inner
+  <<6, "first_iter">>,  \* P20 [_ for _ in [LIT]] in inner: the first iterable is evaluated in inner
+  <<2, "annotation">> >> \* P21 K.ann_attr: LIT = 0 - the module starts with `from __future__ import annotations`: the annotation is not evaluated, it is kept as text
 PScope(p) == PlaceTable[p + 1][1]
 PPos(p)   == PlaceTable[p + 1][2]
 
@@ -54,11 +55,11 @@ Ancestors(s) == IF s = 0 THEN {} ELSE {s} \cup Ancestors(Par[s])
 \* through closures: class bodies between them do not hide it (they only do not *provide* names)
 Visible(h, s) == h \in Ancestors(s) /\ Kind[h] \in {"m", "f"}
 \* places where a name would mean something else
-MustKeepLiteral(p) == PPos(p) \in {"pattern", "slots", "fstr_text", "docstring"}
+MustKeepLiteral(p) == PPos(p) \in {"pattern", "slots", "fstr_text", "docstring", "annotation"}
 
 \* ---- M
 \* (string and bytes literal statements are skipped; None / True / False statements are not)
-Hoistable(p, lit) == /\ PPos(p) \notin {"pattern", "slots", "fstr_text"}
+Hoistable(p, lit) == /\ PPos(p) \notin {"pattern", "slots", "fstr_text", "annotation"}
                      /\ (PPos(p) \in {"litstmt", "docstring"} => lit \in {"none", "true"})
 \* the namespace node the mapper gives a use (defaults and decorators belong to the enclosing namespace)
 MNamespace(p) == IF PPos(p) \in {"default", "decorator", "first_iter"} THEN Par[PScope(p)] ELSE PScope(p)
